@@ -1031,9 +1031,17 @@ class Component(composites.Composite, metaclass=ComponentType):
         if self.parent:
             # changes in dimensions can affect cached variables such as pitch
             self.parent.cached = {}
-            for c in self.getLinkedComponents():
+            # follow chains of links: a component linked to a dependent of this one changes too
+            cleared = [self]
+            pending = self.getLinkedComponents()
+            while pending:
+                c = pending.pop()
+                if any(c is done for done in cleared):
+                    continue
+                cleared.append(c)
                 # no clearCache since parent already updated derivedMustUpdate in self.clearCache()
                 c.p.volume = None
+                pending.extend(c.getLinkedComponents())
 
     def getLinkedComponents(self):
         """Find other components that are linked to this component."""
